@@ -150,7 +150,23 @@ func runC23(c *Ctx) {
 		c.Undecided("addchild-filtered", "filterNode", "no AddChild found")
 	}
 	if nRed == 0 {
-		c.Undecided("redirect-filtered", "filterNode", "no Redirect found")
+		// brigadier's CreateBuilder copies the source node's redirect target (unfiltered); without a
+		// filtered Redirect(...) overriding it the player is sent the target's original subtree
+		var cb ssa.Instruction
+		for _, fn := range c.P.Funcs(Mod + "/" + pkgProxy) {
+			if fn.Name() != "filterNode" {
+				continue
+			}
+			for _, ci := range callsIn(fn, func(nm string, cc *ssa.CallCommon) bool { return methodName(cc) == "CreateBuilder" }) {
+				cb = ci
+			}
+		}
+		if cb != nil {
+			c.Check("redirect-filtered", "CreateBuilder-without-filtered-Redirect@filterNode", cb, false,
+				"the copy is built with CreateBuilder(), which carries the source node's original redirect target, and no Redirect(filterNode(...)) replaces it: an alias/redirect exposes the target's unfiltered children to the player")
+		} else {
+			c.Undecided("redirect-filtered", "filterNode", "no Redirect found")
+		}
 	}
 
 	// handleAvailableCommands
